@@ -1328,6 +1328,18 @@ def check_p2h(rec, case):
             rec.maxi("p2h.iso_rel_gap", float((upper[-1] - z[-1]) / upper[-1]))
         if T is not None and n >= 2 and n % 2 == 0:
             drive_history(rec, case, "pressure2height", _mon["orig"]["pressure2height"], (p, T))
+        if T is not None and Tmin == Tmax and n >= 2 and case.get("pdtype") != "int64":
+            # the same isothermal column stored top-down (pressure increasing along the array): the law
+            # z = (R T / g) ln(p0 / p) gives heights below the first level, the last one being minus the
+            # thickness of the whole column
+            rec.ev()
+            rec.count("p2h.top_down_calls")
+            with np.errstate(all="ignore"):
+                zr = np.asarray(atm.pressure2height(p[::-1].copy(), T[::-1].copy()), dtype=float)
+            if zr.shape != p.shape or zr[0] != 0 or not (-upper[-1] <= zr[-1] <= -lower[-1]):
+                rec.violation("p2h-isothermal", dict(case, top_down=True),
+                              {"why": "column stored with increasing pressure", "z_last": float(zr[-1]) if zr.size else None,
+                               "want_between": [float(-upper[-1]), float(-lower[-1])], "z0": float(zr[0]) if zr.size else None})
         if T is not None and Tmin == Tmax and n >= 2:
             # the isothermal column given as one number (python float, numpy scalar, 0-d array): an
             # implementation may refuse it (the documentation asks for an array), but a returned height
